@@ -167,10 +167,12 @@ func decodeStringValue(reader ByteRuneReader, flag int32) (string, error) {
 		if err != nil {
 			return "", err
 		}
-		if newLength < length {
-			buf = buf[:newLength]
-			length = newLength
+		// the next chunk may be shorter or longer than the previous one
+		if newLength > cap(buf) {
+			buf = make([]rune, newLength)
 		}
+		buf = buf[:newLength]
+		length = newLength
 	}
 
 	return string(byteBuf.Bytes()), nil
